@@ -14,13 +14,17 @@ import (
 // text JSON carries without escapes (no quotes, backslashes, control characters, <, >, &, U+2028/9)
 var textPool = []string{"alpha", "Beta Gamma", "d-e_f.g", "Ünïcödé", "日本語テキスト", "é combining", "emoji 🚀 ok", "עברית", "x", "1.2.3-rc1+build",
 	"https://example.com/a/b?c=d", "MIT OR Apache-2.0", "Copyright (c) 2024 The Authors", "tab-free text with  two spaces"}
+
 // includes identifiers that merely look like the reserved, reader-generated ones
-var spdxIDPool = []string{"a", "b", "c", "pkg-1", "File.2", "X-9", "n0", "lib.z-3", "root", "Zed", "Package-autoconf", "pkg-automake--1.16", "x-auto--1", "auto", "node--7"}
+var spdxIDPool = []string{"a", "b", "c", "pkg-1", "File.2", "X-9", "n0", "lib.z-3", "root", "Zed", "Package-autoconf", "pkg-automake--1.16", "x-auto--1", "auto", "node--7", "Document", "document", "DOCUMENTS"}
 
 func txt(r *rand.Rand) string { return pick(r, textPool) }
 
 func tsOf(r *rand.Rand) *timestamppb.Timestamp {
-	return &timestamppb.Timestamp{Seconds: pick(r, []int64{1577934245, 946684800, 1700166898, 1})}
+	ts := &timestamppb.Timestamp{Seconds: pick(r, []int64{1577934245, 946684800, 1700166898, 1, 1767225599})}
+	// dates are carried to the second: a sub-second part must neither be kept nor round the second up
+	ts.Nanos = pick(r, []int32{0, 0, 1, 499999999, 500000000, 750000000, 999999999})
+	return ts
 }
 
 var spdxAlgos = []int32{1, 2, 3, 4, 5, 6, 7, 8, 9, 10, 11, 12, 14, 15, 16, 17}
